@@ -174,6 +174,107 @@ func model(op string, ns []refnum.Num) (e expect, ok bool) {
 		e.vals = []*big.Rat{new(big.Rat).SetInt(acc)}
 	case "lognot":
 		e.vals = []*big.Rat{new(big.Rat).SetInt(new(big.Int).Not(r(0).Num()))}
+	case "logeqv":
+		// n-ary exclusive nor: the identity is -1, (logeqv a b) = (lognot (logxor a b)), associative
+		acc := big.NewInt(-1)
+		for _, n := range ns {
+			acc.Not(acc.Xor(acc, n.R.Num()))
+		}
+		e.vals = []*big.Rat{new(big.Rat).SetInt(acc)}
+	case "logandc1", "logandc2", "lognand", "lognor", "logorc1", "logorc2":
+		a, b := r(0).Num(), r(1).Num()
+		na, nb := new(big.Int).Not(a), new(big.Int).Not(b)
+		v := new(big.Int)
+		switch op {
+		case "logandc1":
+			v.And(na, b)
+		case "logandc2":
+			v.And(a, nb)
+		case "lognand":
+			v.Not(v.And(a, b))
+		case "lognor":
+			v.Not(v.Or(a, b))
+		case "logorc1":
+			v.Or(na, b)
+		case "logorc2":
+			v.Or(a, nb)
+		}
+		e.vals = []*big.Rat{new(big.Rat).SetInt(v)}
+	case "boole-clr", "boole-set", "boole-1", "boole-2", "boole-c1", "boole-c2", "boole-and", "boole-ior", "boole-xor", "boole-eqv",
+		"boole-nand", "boole-nor", "boole-andc1", "boole-andc2", "boole-orc1", "boole-orc2":
+		// (boole op a b), the sixteen operations of two bits
+		a, b := r(0).Num(), r(1).Num()
+		na, nb := new(big.Int).Not(a), new(big.Int).Not(b)
+		v := new(big.Int)
+		switch op {
+		case "boole-clr":
+		case "boole-set":
+			v.SetInt64(-1)
+		case "boole-1":
+			v.Set(a)
+		case "boole-2":
+			v.Set(b)
+		case "boole-c1":
+			v.Set(na)
+		case "boole-c2":
+			v.Set(nb)
+		case "boole-and":
+			v.And(a, b)
+		case "boole-ior":
+			v.Or(a, b)
+		case "boole-xor":
+			v.Xor(a, b)
+		case "boole-eqv":
+			v.Not(v.Xor(a, b))
+		case "boole-nand":
+			v.Not(v.And(a, b))
+		case "boole-nor":
+			v.Not(v.Or(a, b))
+		case "boole-andc1":
+			v.And(na, b)
+		case "boole-andc2":
+			v.And(a, nb)
+		case "boole-orc1":
+			v.Or(na, b)
+		case "boole-orc2":
+			v.Or(a, nb)
+		}
+		e.vals = []*big.Rat{new(big.Rat).SetInt(v)}
+	case "logcount", "integer-length":
+		// both are defined on the two's complement representation: for a negative integer they look at (lognot n)
+		n := new(big.Int).Set(r(0).Num())
+		if n.Sign() < 0 {
+			n.Not(n)
+		}
+		if op == "integer-length" {
+			e.vals = []*big.Rat{big.NewRat(int64(n.BitLen()), 1)}
+		} else {
+			cnt := 0
+			for _, w := range n.Bits() {
+				for ; w != 0; w &= w - 1 {
+					cnt++
+				}
+			}
+			e.vals = []*big.Rat{big.NewRat(int64(cnt), 1)}
+		}
+	case "logtest":
+		// predicate, read as 1 / 0 through (if ... 1 0)
+		if new(big.Int).And(r(0).Num(), r(1).Num()).Sign() != 0 {
+			e.vals = []*big.Rat{big.NewRat(1, 1)}
+		} else {
+			e.vals = []*big.Rat{new(big.Rat)}
+		}
+	case "logbitp":
+		// (logbitp index integer): bit index of the two's complement representation
+		idx := int(r(0).Num().Int64())
+		n := r(1).Num()
+		bit := uint(0)
+		if n.Sign() >= 0 {
+			bit = n.Bit(idx)
+		} else {
+			bit = 1 - new(big.Int).Not(n).Bit(idx)
+		}
+		e.vals = []*big.Rat{big.NewRat(int64(bit), 1)}
 	case "floor", "ceiling", "truncate", "round":
 		kind := map[string]refnum.DivKind{"floor": refnum.Floor, "ceiling": refnum.Ceiling, "truncate": refnum.Truncate, "round": refnum.Round}[op]
 		d := one
@@ -222,6 +323,12 @@ func form(c Case, names []string) string {
 			return fmt.Sprintf("(let ((v a0)) (list (%s v) v))", c.Op)
 		}
 		return fmt.Sprintf("(let ((v a0)) (list (%s v a1) v))", c.Op)
+	}
+	if strings.HasPrefix(c.Op, "boole-") {
+		return "(boole " + c.Op + " " + strings.Join(names, " ") + ")"
+	}
+	if c.Op == "logtest" || c.Op == "logbitp" {
+		return "(if (" + c.Op + " " + strings.Join(names, " ") + ") 1 0)"
 	}
 	return "(" + c.Op + " " + strings.Join(names, " ") + ")"
 }
@@ -295,6 +402,9 @@ func arithExcluded(c Case, ns []refnum.Num, e expect, s shape) string {
 		}
 	}
 	switch {
+	case (c.Op == "logeqv" || c.Op == "boole-eqv") && anyBigInt && h.ExclOn("logeqv-bignum"):
+		// finding C05-F17: logeqv combines the magnitudes of bignums (pinned by TestLogeqvBignum)
+		return "logeqv-bignum"
 	case anyRatio && anyBigInt && in(c.Op, "+", "-", "*", "/", "floor", "ceiling", "truncate", "round", "mod", "rem", "incf", "decf") && h.ExclOn("ratio-bignum-longfloat"):
 		// NormalizeNumber turns (ratio, bignum) into long-floats (mod and rem: these were covered by
 		// mod-rem-ratio-float while C05-F8 was open)
@@ -778,6 +888,9 @@ func genReal(rt *rapid.T, label string) string {
 	return fs[rapid.IntRange(0, len(fs)-1).Draw(rt, label+"-near")]
 }
 
+var booleOps = []string{"boole-clr", "boole-set", "boole-1", "boole-2", "boole-c1", "boole-c2", "boole-and", "boole-ior", "boole-xor", "boole-eqv",
+	"boole-nand", "boole-nor", "boole-andc1", "boole-andc2", "boole-orc1", "boole-orc2"}
+
 var (
 	naryRat  = []string{"+", "-", "*", "/"}
 	unaryRat = []string{"1+", "1-", "abs"}
@@ -822,6 +935,23 @@ func genArith(rt *rapid.T) Case {
 	case 7:
 		return Case{Op: "expt", A: []string{genRational(rt, "a", 3), strconv.Itoa(rapid.IntRange(-8, 80).Draw(rt, "e"))}}
 	case 8:
+		switch rapid.IntRange(0, 5).Draw(rt, "bitop") {
+		case 0:
+			op := rapid.SampledFrom([]string{"logandc1", "logandc2", "lognand", "lognor", "logorc1", "logorc2", "logtest"}).Draw(rt, "op2")
+			return Case{Op: op, A: []string{genInt(rt, "a").String(), genInt(rt, "b").String()}}
+		case 1:
+			return Case{Op: rapid.SampledFrom([]string{"logcount", "integer-length"}).Draw(rt, "op1"), A: []string{genInt(rt, "a").String()}}
+		case 2:
+			return Case{Op: "logbitp", A: []string{strconv.Itoa(rapid.SampledFrom([]int{0, 1, 2, 31, 32, 62, 63, 64, 65, 127, 128, 200}).Draw(rt, "bit")), genInt(rt, "a").String()}}
+		case 4:
+			return Case{Op: rapid.SampledFrom(booleOps).Draw(rt, "boole"), A: []string{genInt(rt, "a").String(), genInt(rt, "b").String()}}
+		case 3:
+			c := Case{Op: "logeqv"}
+			for i, n := 0, rapid.IntRange(0, 3).Draw(rt, "n"); i < n; i++ {
+				c.A = append(c.A, genInt(rt, "a").String())
+			}
+			return c
+		}
 		if rapid.Bool().Draw(rt, "isqrt") {
 			return Case{Op: "isqrt", A: []string{new(big.Int).Abs(genInt(rt, "a")).String()}}
 		}
@@ -907,7 +1037,9 @@ func TestC05(t *testing.T) {
 		gs[i] = g.String()
 	}
 	h.Enumerate(t, arithGrid, func(yield func(Case) bool) {
-		for _, op := range []string{"+", "-", "*", "/", "floor", "ceiling", "truncate", "round", "mod", "rem", "gcd", "lcm", "logand", "logior", "logxor", "incf", "decf"} {
+		for _, op := range []string{"+", "-", "*", "/", "floor", "ceiling", "truncate", "round", "mod", "rem", "gcd", "lcm", "logand", "logior", "logxor", "incf", "decf", "logandc1", "logandc2", "lognand", "lognor", "logorc1", "logorc2", "logeqv", "logtest",
+			"boole-clr", "boole-set", "boole-1", "boole-2", "boole-c1", "boole-c2", "boole-and", "boole-ior", "boole-xor", "boole-eqv",
+			"boole-nand", "boole-nor", "boole-andc1", "boole-andc2", "boole-orc1", "boole-orc2"} {
 			for _, a := range gs {
 				for _, b := range gs {
 					if !yield(Case{Op: op, A: []string{a, b}}) {
@@ -916,7 +1048,7 @@ func TestC05(t *testing.T) {
 				}
 			}
 		}
-		for _, op := range []string{"+", "-", "*", "/", "1+", "1-", "abs", "floor", "ceiling", "truncate", "round", "lognot", "isqrt", "incf", "decf", "gcd", "lcm"} {
+		for _, op := range []string{"+", "-", "*", "/", "1+", "1-", "abs", "floor", "ceiling", "truncate", "round", "lognot", "isqrt", "incf", "decf", "gcd", "lcm", "logcount", "integer-length", "logeqv"} {
 			for _, a := range gs {
 				if op == "isqrt" && strings.HasPrefix(a, "-") {
 					continue
@@ -934,6 +1066,11 @@ func TestC05(t *testing.T) {
 			}
 			for _, k := range []int{-8, -3, -2, -1, 0, 1, 2, 3, 31, 32, 62, 63, 64, 65, 80} {
 				if !yield(Case{Op: "expt", A: []string{a, strconv.Itoa(k)}}) {
+					return
+				}
+			}
+			for _, k := range []int{0, 1, 2, 30, 31, 32, 33, 61, 62, 63, 64, 65, 66, 127, 128, 200} {
+				if !yield(Case{Op: "logbitp", A: []string{strconv.Itoa(k), a}}) {
 					return
 				}
 			}
